@@ -164,7 +164,7 @@ def k_batch(N=3, G=1, mode="both", states=2, max_est=10000, sym_np=True, shapes=
         except Exception as e:  # noqa: a fault-free round must not raise
             raised = "%s: %s" % (type(e).__name__, str(e)[:120])
         except PathBudget:
-            ex.check(False, "C05: submitter round did not terminate within the path budget")
+            ex.check(False, "C05: submitter round did not terminate within the path budget", fatal=True)
             return
         # ---- oracle
         batches = []
